@@ -353,8 +353,20 @@ def run_case(sh, s, d, case):
                     tm2 = transaction.TransactionManager()
                     c2 = db.open(tm2)
                     tm2.begin()
-                    c2.root()['other'].tok = 'theirs%d' % i
-                    tm2.commit()
+                    on_blob = [nm for nm in pending if pending[nm] is not None and committed.get(nm) is not None and nm in oid_of]
+                    if on_blob and rnd.random() < 0.6:
+                        # the conflict is on a blob's own record: the other connection rewrites a blob this transaction rewrites too
+                        nm = rnd.choice(sorted(on_blob))
+                        theirs = b'theirs %d' % i
+                        with c2.root()[nm].open('w') as f2:
+                            f2.write(theirs)
+                        tm2.commit()
+                        committed[nm] = theirs
+                        content_at[(oid_of[nm], st.lastTransaction())] = theirs
+                        sh.count('conflicts_on_a_blob_record')
+                    else:
+                        c2.root()['other'].tok = 'theirs%d' % i
+                        tm2.commit()
                     c2.close()
                     try:
                         tm.commit()
